@@ -19,10 +19,11 @@ from __future__ import annotations
 import json
 import multiprocessing as mp
 import os
+import re
 import sys
 import typing
+import zlib
 from enum import Enum
-import re
 from datetime import timedelta
 from decimal import Decimal
 from fractions import Fraction
@@ -294,6 +295,8 @@ def type_str(t) -> str:
         return {"none": "None", "any": "Any"}.get(k, k)
     if k == "path":
         return "Path_fr"
+    if k == "class":
+        return a[0]["v"]
     if k == "rstr":
         return f"restricted_string_type('V_{a[0]['v']}', {TYPEDEFS['rstr'][a[0]['v']]['pat']!r})" if TYPEDEFS else "rstr:" + a[0]["v"]
     if k == "rnum":
@@ -330,19 +333,32 @@ def conforms_py(v, tp) -> bool:
         return True
     if tp is type(None):
         return v is None
-    if tp in (bool, int, float, str):
+    if tp in (int, float, str):  # an instance of a restricted sub-class (left behind by another Union member) still is one
+        return isinstance(v, tp) and not isinstance(v, (bool, Enum)) and (type(v) is tp or type(v) in RSTR_INV or type(v) in RNUM_INV)
+    if tp is bool:
         return type(v) is tp
     if tp is list or tp is dict:
         return type(v) is tp
     if tp is Path_fr:
         return isinstance(v, Path_fr)
-    if tp in RSTR_INV or tp in RNUM_INV or tp in REG_INV:
-        return type(v) is tp  # a value of a restricted type is an instance of the restricted class itself
+    if tp in REG_INV:
+        return type(v) is tp
+    if tp in RSTR_INV:  # an instance of the restricted class, or a plain str that the pattern matches (Python's re, not jsonargparse)
+        return type(v) is tp or (type(v) is str and re.match(TYPEDEFS["rstr"][RSTR_INV[tp]]["pat"], v) is not None)
+    if tp in RNUM_INV:  # an instance of the restricted class, or a plain number of the base type that meets the restrictions
+        df = TYPEDEFS["rnum"][RNUM_INV[tp]]
+        if type(v) is tp:
+            return True
+        if type(v) is not (int if df["base"] == "int" else float):
+            return False
+        ops = {">": lambda a, b: a > b, ">=": lambda a, b: a >= b, "<": lambda a, b: a < b, "<=": lambda a, b: a <= b, "==": lambda a, b: a == b, "!=": lambda a, b: a != b}
+        hold = [ops[op](v, n / d) for op, n, d in df["rs"]]
+        return all(hold) if df["join"] == "and" else any(hold)
     if isinstance(tp, type) and issubclass(tp, Enum):
         return isinstance(v, tp)
     origin, args = typing.get_origin(tp), typing.get_args(tp)
     if origin is Literal:
-        return any(type(v) is type(m) and v == m for m in args)
+        return any((type(v) is type(m) or ((type(v) in RSTR_INV or type(v) in RNUM_INV) and type(m) is not bool and isinstance(v, type(m)))) and v == m for m in args)
     if origin is Union:
         return any(conforms_py(v, a) for a in args)
     if origin is list:
@@ -361,7 +377,12 @@ def conforms_py(v, tp) -> bool:
 
 
 # ---------------------------------------------------------------- executing cases on the real code
-CLASH_KEY = "items"  # an argument named like a method of Namespace
+CLASH_KEYS = ("items", "keys", "values", "get", "pop", "update", "clone")  # arguments named like methods of Namespace (repaired by /repo 737ad47)
+
+
+def clash_key(t) -> str:
+    """the name under which the type is declared a second time: fixed per type, every name is used"""
+    return CLASH_KEYS[zlib.crc32(canon(t).encode()) % len(CLASH_KEYS)]
 
 
 def make_parser(tp, d=None, enable_path=False, key=KEY, **parser_kw):
@@ -417,8 +438,8 @@ def _work(job):
         out.append([run_one(parser, tp, x, ch) for ch in channels(x)])
     res = {"t": t, "out": out}
     if clash:  # the same values as objects for an argument named like a Namespace method
-        cparser = make_parser(tp, d, key=CLASH_KEY)
-        res["clash"] = [run_one(cparser, tp, x, "obj", key=CLASH_KEY) for x in xs]
+        cparser = make_parser(tp, d, key=clash_key(t))
+        res["clash"] = [run_one(cparser, tp, x, "obj", key=clash_key(t)) for x in xs]
     return res
 
 
@@ -491,7 +512,8 @@ def good_value(rnd, t, texty=0.25):
         return {"k": "str", "v": rnd.choice(["1", "2", "0", "-1", " 1 ", "0x10", "1_000"])} if s else {"k": "int", "v": rnd.randint(-3, 40)}
     if k == "float":
         return {"k": "str", "v": rnd.choice(["1.5", "1.0", "1e3", "-0.5", "1"])} if s else rnd.choice(
-            [{"k": "float", "v": [rnd.randint(-9, 9) * 2 + 1, 2]}, {"k": "float", "v": [rnd.randint(-5, 5), 1]}, {"k": "int", "v": rnd.randint(0, 5)}])
+            # (floats whose str() the vocabulary knows: a str-serialising Union member may write them as texts that are read again)
+            [{"k": "float", "v": rnd.choice([[3, 2], [1, 2], [-1, 2]])}, {"k": "float", "v": [rnd.choice([0, 1, 2, 16, 1000]), 1]}, {"k": "int", "v": rnd.randint(0, 5)}])
     if k == "bool":
         return {"k": "str", "v": rnd.choice(["true", "false", "yes", "True", "off"])} if s else {"k": "bool", "v": rnd.random() < 0.5}
     if k == "none":
@@ -654,7 +676,7 @@ def depth_of(t) -> int:
 
 
 # ---------------------------------------------------------------- verdicts
-DEV_KEYS = {"clashKey": "clash-key-not-normalised", "excLeak": "union-vals-last", "origNested": "union-orig-nested", "inPlace": "union-in-place", "validateLeak": "validate-leaks-into-result", "setListing": "set-listing-order", "litEq": "literal-eq",
+DEV_KEYS = {"origNested": "union-orig-nested", "inPlace": "union-in-place", "validateLeak": "validate-leaks-into-result", "setListing": "set-listing-order", "litEq": "literal-eq",
             "dictKey": "dict-key-unchecked", "serCollision": "set-written-with-duplicates"}
 
 
@@ -808,6 +830,16 @@ def typedef_check(rep, defs, texts):
                 got = f"{type(ex).__name__}: {ex}"
             if got != canon(norm(ser)):
                 bad(f"reg:{name}:ser:{code}", f"the serializer of {name} writes {got} for {reg_value(name, code)!r}, the specification says {canon(ser)}", {"code": code})
+        for code, items in defs.get("iter", {}).get(name, []):  # list(value) of the iterable ones
+            n += 1
+            if list(reg_value(name, code)) != list(items):
+                bad(f"reg:{name}:iter:{code}", f"list({reg_value(name, code)!r}) is {list(reg_value(name, code))}, the specification says {items}", {"code": code})
+        codes = sorted(code for code, _ in df["ser"])
+        for i, a in enumerate(codes):  # two values of the model are two values of Python (range(0) == range(-3, 5, -1) would merge in a set)
+            for b in codes[i + 1:]:
+                n += 1
+                if reg_value(name, a) == reg_value(name, b):
+                    bad(f"reg:{name}:same:{a}:{b}", f"the values {a} and {b} of {name} are told apart by the specification but are == in Python", {"codes": [a, b]})
         for rows, conv in ((df["txt"], lambda r: r), (df["num"], gamma_val)):
             for inp, code in rows:
                 n += 1
@@ -894,7 +926,7 @@ def main(argv):
     for c in cases:
         by_type.setdefault((canon(c["t"]), canon(c["d"])), []).append(c)
     groups = sorted(by_type.items())
-    jobs = [(cs[0]["t"], cs[0]["d"], [c["x"] for c in cs], "cok" in cs[0]) for _, cs in groups]
+    jobs = [(cs[0]["t"], cs[0]["d"], [c["x"] for c in cs], "clash" in cs[0]) for _, cs in groups]
     results = run_jobs(jobs)
     stats = {"non_argument_errors": 0, "unbuildable_types": 0}
     n_exec = 0
@@ -916,10 +948,10 @@ def main(argv):
             if len(rep.samples) < 3 and c["dev"] == [] and c["acc"] and c["t"]["k"] == "union" and c["x"]["k"] in ("list", "str"):
                 rep.sample({"type": type_str(c["t"]), "input": gamma_repr(c["x"]), "python": python_repro(c["t"], c["x"], "obj", c["d"]),
                             "ref_accepts": c["acc"], "ref_results": c["res"], "alg_predicts": c["av"], "observed": outs[0]})
-        for c, real in zip(cs, r.get("clash", [])):  # the argument is called --items: Ref as before, Alg = AlgParseClash
+        for c, real in zip(cs, r.get("clash", [])):  # the argument is called --items: nothing may depend on its name
             n_exec += 1
             stats["clash_key_executions"] = stats.get("clash_key_executions", 0) + 1
-            classify_replay(rep, {**c, "aok": c["cok"], "av": c["cv"], "dev": c["cdev"]}, "obj, argument named --" + CLASH_KEY, real, stats)
+            classify_replay(rep, c, "obj, argument named --" + clash_key(c["t"]), real, stats)
     pgroups = [g for g in verdicts.values() if len(g) > 1]
     stats["permutation_groups_compared"] = len(pgroups)
     stats["permutation_groups_with_different_real_verdicts"] = sum(1 for g in pgroups if len(set(g.values())) > 1)
@@ -943,7 +975,7 @@ def main(argv):
                 if real["ok"] and real["v"]["k"] == "other":
                     rep.violation(f"unknown-result:{shape(t, x)}", "the result is not a value of the model", {"t": t, "x": x, "observed": real})
                     continue
-                obs.append({"kind": "parse", "t": t, "d": d, "clash": False, "x": x, "ok": real["ok"], "v": real["v"]})
+                obs.append({"kind": "parse", "t": t, "d": d, "x": x, "ok": real["ok"], "v": real["v"]})
                 meta.append({"chan": ch, "pyok": real["pyok"], "exc": real["exc"]})
                 if (t["k"] not in LEAF or d["k"] != "none") and x["k"] != "none":
                     rep.note_nontrivial(canon(t) + "|" + canon(d) + "|" + canon(x))
